@@ -168,9 +168,10 @@ class RV:
     """A float value in the Round domain: z3 real term, or opaque (data-derived).
     lo/hi: constant bounds known structurally (Fractions or None)."""
 
-    __slots__ = ("t", "opaque", "exact_const", "lo", "hi")
+    __slots__ = ("t", "opaque", "exact_const", "lo", "hi", "quot")
 
     def __init__(self, t, opaque=False, exact_const=None, lo=None, hi=None):
+        self.quot = None   # (numerator, denominator) if this value is the rounded quotient of two tracked values
         self.t = t
         self.opaque = opaque
         self.exact_const = exact_const  # Fraction if this is a literal/const value
@@ -364,6 +365,27 @@ class Round:
         return r
 
     def arith(self, op, a, b):
+        if op == "*" and not (a.opaque or b.opaque):
+            # fl(fl(n/d) * d) = n (1+e1)(1+e2): the rescaling idiom `h *= target / h` keeps its meaning
+            for p, q in ((a, b), (b, a)):
+                if p.quot is not None and p.quot[1].t.eq(q.t):
+                    num = p.quot[0]
+                    e2 = _q(Fraction(2, 2 ** 53) + Fraction(1, 2 ** 106))
+                    lo_t = z3.If(num.t >= 0, num.t * (1 - e2), num.t * (1 + e2))
+                    hi_t = z3.If(num.t >= 0, num.t * (1 + e2), num.t * (1 - e2))
+                    self.n_ops += 1
+                    r = self.fresh("mulq")
+                    self.add(z3.And(r.t >= lo_t, r.t <= hi_t), defines=r)
+                    if num.lo is not None and num.lo >= 0:
+                        r.lo = Fraction(0)
+                    return r
+        r = self._arith(op, a, b)
+        if op == "/" and not (a.opaque or b.opaque) and r.quot is None and not r.opaque:
+            if r.exact_const is None:
+                r.quot = (a, b)
+        return r
+
+    def _arith(self, op, a, b):
         if a.opaque or b.opaque:
             other = b if a.opaque else a
             both = a.opaque and b.opaque
@@ -572,6 +594,9 @@ class Round:
             if ec == 0:
                 return self.const(1)
             at = a.t
+            # base on the far side of 1 on this whole path (decided by the solver): the bound becomes structural
+            if (ec < 0 and self.check([at <= 1], fast=True) == z3.unsat) or (ec > 0 and self.check([z3.Or(at >= 1, at < 0)], fast=True) == z3.unsat):
+                v.hi = Fraction(1)
             if ec < 0:
                 self.add(z3.Implies(at > 1, v.t <= 1), defines=v)
                 self.add(z3.Implies(z3.And(at < 1, at > 0), v.t >= 1), defines=v)
